@@ -38,7 +38,7 @@ RULE = ("exhaustive: every composition (ordered split into non-empty blocks) of 
         "ChickenSys FIR (custom taps/k), generic IIR, ChickenSys IIR and the five presets; random splits (arbitrary, and with every "
         "block >= N-1) of random / extreme int16 signals of length 11..400 for all presets and random integer-valued and "
         "fractional FIR/IIR coefficients and delay offsets; malformed configurations (bad delay offset, empty taps, k=0, A[0]=0, "
-        "wrong dtype, empty blocks); circular-buffer op sequences.  Non-trivial = signal has a non-zero sample and more than one block "
+        "wrong dtype, empty blocks); presets on signals of 2^14..2^17 + r samples fed as blocks of more than 2^16 samples (every block >= N-1); circular-buffer op sequences.  Non-trivial = signal has a non-zero sample and more than one block "
         "or a flush; distinct = distinct (filter, signal, split)")
 
 HASH_FILE = os.path.join(F.VERIF, "harness", "filters_pyx.sha256")
@@ -550,6 +550,37 @@ def w_random(pid, tier, seed, job):
     return ctx.dump()
 
 
+def w_big(pid, tier, seed, job):
+    """Blocks far longer than any internal working size (beyond 2^16 samples), every block >= N-1: the presets, split and unsplit."""
+    ctx = F.Ctx(pid, tier, seed)
+    n, jseed, with_model = job
+    rng = random.Random(jseed)
+    spec = {"t": "preset", "n": n}
+    nt = fir_taps(spec) or 2
+    items = []
+    for base in ([65536] if tier == "quick" else [65536, 131072, 32768, 16384]):
+        for r in ([1, nt - 2, nt - 1] if tier == "quick" else [1, 2, nt - 2, nt - 1, nt, 40]):
+            r = max(1, r)
+            tail = rng.choice([nt, 64, 100])
+            L = base + r + tail
+            sig = gen_signal(rng, 1, L, rng.choice(["rand", "burst", "alt"]))
+            cutlist = [[base + r, tail], [base, r + tail], [4096] * (L // 4096) + ([L % 4096] if L % 4096 >= nt else [])]
+            if sum(cutlist[2]) != L:
+                cutlist[2][-1] += L - sum(cutlist[2])
+            items.append((spec, sig, cutlist))
+    if with_model:
+        corr_and_oracle(ctx, items[:1])
+        items = items[1:]
+    for spec, sig, cutlist in items:
+        ctx.count("big/%s" % n, (n, len(sig[1]), tuple(map(tuple, cutlist)), jseed), nontrivial=True)
+        whole = oracle_signal(ctx, spec, sig)
+        if whole[0] != "ok":
+            continue
+        for cuts in cutlist:
+            oracle_split(ctx, spec, sig, cuts, whole)
+    return ctx.dump()
+
+
 def w_ops(pid, tier, seed, job):
     """Random operation sequences incl. reset_state and flushes in the middle, empty blocks, and
     malformed configurations (errors must agree)."""
@@ -682,6 +713,7 @@ def run(ctx):
     nrand = 16 if ctx.quick else 64
     per = 60 if ctx.quick else 250
     F.pmap(ctx, w_random, [(rng.getrandbits(32), per) for _ in range(nrand)])
+    F.pmap(ctx, w_big, [(n, rng.getrandbits(32), n in (0, 1, 4)) for n in range(5)])
     F.pmap(ctx, w_ops, [(rng.getrandbits(32), 150 if ctx.quick else 600) for _ in range(16)])
     F.pmap(ctx, w_cbuf, [(rng.getrandbits(32), 200 if ctx.quick else 1500) for _ in range(8)])
     ctx.note("filters: FIR kernels with more than 11 taps are compared on integer-valued data only (numpy uses BLAS there; summation order unspecified)")
